@@ -205,3 +205,82 @@ def exercise(ctx: Ctx, label: str, sim, rng: Rng) -> List[str]:
     except Exception as e:
         ctx.notes.append(f"R-edits: node edit skipped: {type(e).__name__}: {str(e)[:80]}")
     return ec.finish()
+
+
+# ------------------------------------------------------------------------------------------ construction orders
+def construction_orders(ctx: Ctx, label: str, sim, rng: Rng) -> List[dict]:
+    """`exists ⇒ route exists` for construction orders the model quantifies over (Props/C05Sites.lean): a node is built and
+    stays OFF (or is SHUTTING_DOWN / BOOTING) while a NIC is connected, a service and an application are installed, a folder
+    and a file are created, some are removed again, and the node itself is added to the network; then it is powered on and
+    the independent structure oracle (object graph vs request tree) must find every component routed, to ITS OWN manager, and
+    no stale route.  Every step goes through the Python API (requests are refused while a node is not ON)."""
+    import primaite.game.game  # noqa: F401
+    from primaite.simulator.network.hardware.nodes.host.computer import Computer
+    from primaite.simulator.network.hardware.nodes.host.host_node import NIC
+    from primaite.simulator.network.hardware.nodes.host.server import Server
+    from primaite.simulator.system.applications.application import Application
+    from primaite.simulator.system.services.service import Service
+    found: List[dict] = []
+    orders = [("off-then-on", 0), ("shutting-down", 1), ("booting", 2)]
+    for oname, mode in orders:
+        cls = rng.choice([Computer, Server])
+        host = f"order_{oname}_{rng.below(1000)}"
+        ops: List[str] = []
+        try:
+            node = cls.from_config(config={"type": "computer" if cls is Computer else "server", "hostname": host,
+                                           "ip_address": f"10.252.{rng.range(1, 200)}.9", "subnet_mask": "255.255.255.0",
+                                           "start_up_duration": 2, "shut_down_duration": 2})
+            if mode == 1:
+                node.power_on()
+                for t in range(4):
+                    node.apply_timestep(t)
+                node.power_off()
+                ops += ["power_on", "tick*4", "power_off"]
+            elif mode == 2:
+                node.power_on()
+                ops.append("power_on")
+            state_at_edit = node.operating_state.name
+            sim.network.add_node(node)
+            ops.append(f"network.add_node [{state_at_edit}]")
+            nic = NIC(ip_address=f"10.253.{rng.range(1, 200)}.9", subnet_mask="255.255.255.0")
+            node.connect_nic(nic)
+            ops.append("connect_nic")
+            svc = rng.choice(["ftp-server", "dns-server", "ntp-server", "web-server"])
+            app = rng.choice(["nmap", "dos-bot", "ransomware-script", "c2-beacon"])
+            for name, reg in ((svc, Service._registry), (app, Application._registry)):
+                if name not in node.software_manager.software:
+                    node.software_manager.install(reg[name])
+                    ops.append(f"install {name}")
+            node.file_system.create_folder("built_off")
+            node.file_system.create_file(file_name="f.txt", folder_name="built_off")
+            ops += ["create_folder built_off", "create_file built_off/f.txt"]
+            if rng.chance(1, 2):
+                node.software_manager.uninstall(app)
+                ops.append(f"uninstall {app}")
+            if rng.chance(1, 2):
+                node.disconnect_nic(nic)
+                ops.append("disconnect_nic")
+            for t in range(12):
+                if node.operating_state.name == "OFF":
+                    node.power_on()
+                    ops.append("power_on")
+                if node.operating_state.name == "ON":
+                    break
+                node.apply_timestep(100 + t)
+            ops.append(f"ticks until {node.operating_state.name}")
+        except Exception as e:
+            ctx.notes.append(f"R-edits construction order {oname} skipped in {label}: {type(e).__name__}: {str(e)[:80]}")
+            continue
+        ctx.count(f"edits:construction-order:{oname}:{state_at_edit}")
+        ctx.cov["evaluations"] += 1
+        for mm in rreq.structure_mismatches(sim):
+            if mm.get("where", "").split(":")[0] == host or mm.get("key") == host:
+                found.append({"order": oname, "state_at_edit": state_at_edit, "ops": ops, "mismatch": mm, "node_class": cls.__name__})
+        # the routes must also ANSWER: enable/disable of every NIC that exists is not `unreachable` once the node is ON
+        if node.operating_state.name == "ON":
+            for num in list(node.network_interface):
+                r = sim.apply_request(["network", "node", host, "network_interface", num, "disable"])
+                if getattr(r, "status", None) == "unreachable":
+                    found.append({"order": oname, "state_at_edit": state_at_edit, "ops": ops, "node_class": cls.__name__,
+                                  "mismatch": {"kind": "existing-nic-unreachable", "level": "network_interface", "key": str(num)}})
+    return found
